@@ -368,7 +368,7 @@ def _rand_region(rng, n, tlen_extra=4, strided=0.3):
 def _rand_source(rng, maxd=3, maxn=5, region_p=0.6):
     nd = rng.randint(1, maxd)
     shape = [rng.randint(1, maxn) for _ in range(nd)]
-    chunks = [list(random_chunks(rng, s)) for s in shape]
+    chunks = [list(random_chunks(rng, s, zeros=0.12)) for s in shape]
     if rng.random() < region_p:
         region, tshape = [], []
         for n in shape:
